@@ -40,3 +40,20 @@ Proof.
   rewrite Ho. unfold o_spike, o_cell, o_v, o_r, p_refuted. cbn [fst snd refrac_t]. rn_simpl.
   destruct (Reqb'_spec 0 0); [split; reflexivity|lra].
 Qed.
+
+(* the general shape of the finding: with refrac_t = 0 EVERY entry of the `spike` attribute is True after every
+   forward call (from a constructed / cleared neuron), whatever forward returned *)
+Theorem spike_attr_refrac0_all_true :
+  forall c p, ctor_ok RN c p = true -> refrac_t RN p = 0 ->
+  forall adapt lock cs xs, all_cells (fun ce => snd ce <= 0) cs ->
+    Forall (Forall (fun a : bool => a = true)) (spike_attr RN p (snd (forward RN c p adapt lock cs xs))).
+Proof.
+  intros c p Hok HR adapt lock cs xs H. pose proof (Hdt c p Hok) as Hd.
+  unfold spike_attr, forward. cbn [snd]. rewrite map_map, Forall_map.
+  eapply Forall_map2_l; [|exact H]. intros col row Hc. cbn beta in Hc. unfold col_forward. cbn [snd cells].
+  rewrite map_map, Forall_map. unfold col_outs.
+  eapply Forall_map2_r; [|exact Hc]. intros x [v r] Hr. cbn [snd] in Hr. unfold o_cell. cbn [snd].
+  rewrite cls_cell_spec, HR. unfold thr_spec.
+  destruct (Rle_dec (r - step_time RN p) 0) as [_|Hn]; [|lra].
+  destruct (Rle_dec _ _); unfold o_r; cbn [snd]; rn_simpl; destruct (Reqb'_spec 0 0); try reflexivity; lra.
+Qed.
